@@ -1,6 +1,6 @@
 (* C09, finite domains decided inside the kernel (vm_compute over every byte / every pair of bytes, the bound is
    part of each statement), and their lifting to byte strings of any length. *)
-From TT Require Import Base.Prelude Gen.Iso6937Tables Gen.StlTables Gen.Iso6937Spec Model.Iso6937 Model.StlTf Spec.Ebu3264Spec.
+From TT Require Import Base.Prelude Gen.Iso6937Tables Gen.StlTables Gen.Iso6937Spec Model.Iso6937 Model.StlTf Model.StlTriggers Spec.Ebu3264Spec.
 
 Fixpoint all_upto (k : nat) (i : Z) (p : Z -> bool) : bool :=
   match k with O => true | S k' => p i && all_upto k' (i + 1) p end.
@@ -15,7 +15,6 @@ Qed.
 Lemma all_bytes p : all_upto 256 0 p = true -> forall b, 0 <= b < 256 -> p b = true.
 Proof. intros H b Hb. apply (all_upto_spec 256 0 p H). lia. Qed.
 
-Definition trigger_a4 (bs : list Z) : bool := existsb (fun b => b =? 164) bs.
 
 (* ---- the classifiers of tf.py: the range tests of Model/StlTf.v are the source's functions on every byte,
         and the specification's classes coincide with them *)
@@ -139,9 +138,6 @@ Qed.
 
 (* the decoder chosen by the CCT field: implementation = standard on any byte string, outside the recorded
    finding (byte 0xA4 under the Latin table) *)
-Definition latin_cct (cct : list Z) : bool :=
-  negb (bytes_eqb cct [48; 49] || bytes_eqb cct [48; 50] || bytes_eqb cct [48; 51] || bytes_eqb cct [48; 52]).
-Definition trigger_a4_cct (cct bs : list Z) : bool := latin_cct cct && trigger_a4 bs.
 
 Lemma bytes_eqb_eq a b : bytes_eqb a b = true -> a = b.
 Proof.
